@@ -50,6 +50,7 @@ def main() -> int:
         core.note_source_changes(R)
         if not a.no_proof:
             R.prove()
+        R.check_ties()
         res = mod.run(R) or ({}, {})
         if cov is not None:
             cov.stop()
